@@ -125,6 +125,9 @@ type renewPlan struct {
 	LatencyUs    int    `json:"latency_us"`
 	FreshToken   bool   `json:"fresh_token_on_renew"`
 	RenewDelayMs int    `json:"first_renew_after_ms"`
+	// CancelEvery > 0: every n-th request of a sender is issued with a context that is
+	// already cancelled (or ends within a millisecond); it may fail, nothing else may
+	CancelEvery int `json:"cancelled_context_every,omitempty"`
 	// RealServer: the peer is a real server-kind uasc.SecureChannel whose
 	// responses are sent by concurrent responder goroutines instead of the script
 	RealServer   bool   `json:"real_server_channel"`
@@ -151,6 +154,7 @@ func (r *renewRun) setup(s *sim.Sim, mode string) {
 	r.ThinkMs = sim.Pick(p, 0, 1, 10, 100)
 	r.LatencyUs = sim.Pick(p, 0, 200, 2000)
 	r.FreshToken = p.Bool()
+	r.CancelEvery = sim.Pick(p, 0, 0, 3, 5)
 	r.StartSeq = sim.Pick(p, uint32(0), 0, 0xffffffff-1030, 0xffffffff-1024-3)
 	if mode == "c11" {
 		// a fifth of the runs has no renewal at all: whatever goes wrong
@@ -242,6 +246,18 @@ func (r *renewRun) Main(s *sim.Sim) {
 	var failed []string
 	stop := make(chan struct{})
 	call := func(marker float64, big bool) {
+		cctx, doomed := ctx, false
+		if r.CancelEvery > 0 && int(marker)%r.CancelEvery == 2 {
+			doomed = true
+			var cancel context.CancelFunc
+			if int(marker)%2 == 0 {
+				cctx, cancel = context.WithCancel(ctx)
+				cancel()
+			} else {
+				cctx, cancel = context.WithTimeout(ctx, time.Millisecond)
+				defer cancel()
+			}
+		}
 		req := &ua.ReadRequest{MaxAge: marker}
 		n := 1
 		if big {
@@ -251,12 +267,16 @@ func (r *renewRun) Main(s *sim.Sim) {
 			req.NodesToRead = append(req.NodesToRead, &ua.ReadValueID{NodeID: ua.NewStringNodeID(1, "some.node.name.to.fill.space"), AttributeID: ua.AttributeIDValue, DataEncoding: &ua.QualifiedName{}})
 		}
 		var got float64 = -1
-		err := sc.SendRequestWithTimeout(ctx, req, nil, 5*time.Second, func(v ua.Response) error {
+		err := sc.SendRequestWithTimeout(cctx, req, nil, 5*time.Second, func(v ua.Response) error {
 			if rr, ok := v.(*ua.ReadResponse); ok && len(rr.Results) == 1 && rr.Results[0].Value != nil {
 				got, _ = rr.Results[0].Value.Value().(float64)
 			}
 			return nil
 		})
+		if doomed && err != nil {
+			s.Probe("request-with-ended-context-failed")
+			return
+		}
 		if err != nil || got != marker {
 			mu.Lock()
 			failed = append(failed, fmt.Sprintf("request %v at %v: err=%v got=%v", marker, s.Now(), err, got))
@@ -478,6 +498,18 @@ func (r *renewRun) mainRealServer(s *sim.Sim) {
 	}
 	var wg sync.WaitGroup
 	call := func(marker float64, big bool) {
+		cctx, doomed := ctx, false
+		if r.CancelEvery > 0 && int(marker)%r.CancelEvery == 2 {
+			doomed = true
+			var cancel context.CancelFunc
+			if int(marker)%2 == 0 {
+				cctx, cancel = context.WithCancel(ctx)
+				cancel()
+			} else {
+				cctx, cancel = context.WithTimeout(ctx, time.Millisecond)
+				defer cancel()
+			}
+		}
 		req := &ua.ReadRequest{MaxAge: marker}
 		n := 1
 		if big {
@@ -487,12 +519,16 @@ func (r *renewRun) mainRealServer(s *sim.Sim) {
 			req.NodesToRead = append(req.NodesToRead, &ua.ReadValueID{NodeID: ua.NewStringNodeID(1, "some.node.name.to.fill.space"), AttributeID: ua.AttributeIDValue, DataEncoding: &ua.QualifiedName{}})
 		}
 		var got float64 = -1
-		err := sc.SendRequestWithTimeout(ctx, req, nil, 5*time.Second, func(v ua.Response) error {
+		err := sc.SendRequestWithTimeout(cctx, req, nil, 5*time.Second, func(v ua.Response) error {
 			if rr, ok := v.(*ua.ReadResponse); ok && len(rr.Results) == 2 && rr.Results[0].Value != nil {
 				got, _ = rr.Results[0].Value.Value().(float64)
 			}
 			return nil
 		})
+		if doomed && err != nil {
+			s.Probe("request-with-ended-context-failed")
+			return
+		}
 		if err != nil || got != marker {
 			mu.Lock()
 			failed = append(failed, fmt.Sprintf("request %v at %v: err=%v got=%v", marker, s.Now(), err, got))
